@@ -513,7 +513,7 @@ func init() {
 			"after a peer reset only 'reported <= transferred' is required (bytes in flight may be discarded)",
 			"AsyncAdapter writes are at most 64 KiB and its peer is drained by a helper goroutine: net.Conn.Write blocks the loop goroutine when the socket is full (adapter design)",
 		},
-		NumCases:    func(tier, build string) int { return vf.Tiered(tier, 120, 12000) },
+		NumCases:    func(tier, build string) int { return vf.Tiered(tier, 240, 12000) },
 		Floor:       func(tier string) int { return vf.Tiered(tier, 10, 100) },
 		CaseTimeout: 300 * time.Second,
 		Run:         runC02,
